@@ -110,10 +110,17 @@ func c05WRRFresh(r *vres.Report, maxN, maxW int) {
 	var sample interface{}
 	var outs vres.Outcomes
 	idx := 0
+	// weight alphabet: 0..maxW plus negative values (they reach AddBackend through the admin API
+	// and through configurations built in code, which config.Validate never sees)
+	var walph []int
+	for w := 0; w <= maxW; w++ {
+		walph = append(walph, w)
+	}
+	walph = append(walph, -1, -3)
 	for n := 1; n <= maxN; n++ {
 		total := 1
 		for i := 0; i < n; i++ {
-			total *= maxW + 1
+			total *= len(walph)
 		}
 		for code := 0; code < total; code++ {
 			idx++
@@ -125,8 +132,8 @@ func c05WRRFresh(r *vres.Report, maxN, maxW int) {
 			W := 0
 			eff := make([]int, n)
 			for i := 0; i < n; i++ {
-				ws[i] = c % (maxW + 1)
-				c /= maxW + 1
+				ws[i] = walph[c%len(walph)]
+				c /= len(walph)
 				eff[i] = ws[i]
 				if eff[i] < 1 {
 					eff[i] = 1 // weights below 1 count as 1
@@ -136,7 +143,9 @@ func c05WRRFresh(r *vres.Report, maxN, maxW int) {
 			cases++
 			var seq []int
 			vh.RunSeq(r, "C05/sequential", func(s *vrt.Sched) {
-				k := newKit(s, kitOpts{Strategy: "weighted_round_robin", N: n, Weights: ws})
+				// (a configuration built in code, as the admin API's add does: not passed through
+				// config.Validate, which refuses negative weights in a file)
+				k := newKitCfg(s, kitConfig(kitOpts{Strategy: "weighted_round_robin", N: n, Weights: ws}))
 				for q := 0; q < 3*W; q++ {
 					i, _ := servedIndex(k, "10.0.0.1")
 					seq = append(seq, i)
@@ -170,7 +179,7 @@ func c05WRRFresh(r *vres.Report, maxN, maxW int) {
 		}
 	}
 	r.AddScenario(vres.Scenario{Name: "weighted_round_robin-fresh", Engine: "H", Executions: cases, States: cases, Transitions: evals, Outcomes: outs.N(),
-		Bound: fmt.Sprintf("every weight vector in {0..%d}^n for n=1..%d; 3*sum(w) requests, every window of sum(w)", maxW, maxN), Exhaustive: true, Sample: sample,
+		Bound: fmt.Sprintf("every weight vector in {0..%d, -1, -3}^n for n=1..%d; 3*sum(w) requests, every window of sum(w)", maxW, maxN), Exhaustive: true, Sample: sample,
 		Extra: map[string]interface{}{"wall_s": time.Since(start).Seconds()}})
 }
 
